@@ -9,6 +9,11 @@ G: every finished object of the Versions writer is concretised from the chunks t
    / get_version for carried and absent indices / has_indexes, num_symbols / get_symbol /
    iter_symbols.  The lazy auxiliary iterators are consumed nested, deferred in reverse, round-robin,
    partially, and from two interleaved section iterations: one expectation for all of them.
+   Client sessions: every finished session of the specification (actions StartSession / ClientCall:
+   look-ups in ascending / descending / repeated order, has_indexes, num_versions, complete iterations
+   and the steps of one open iteration, interleaved; all call pairs (quick) / triples (thorough) over a
+   small alphabet on small objects) is replayed call by call on ONE fresh section object and every
+   answer is compared with the answer the specification logged for that call.
 T: for every ELF of the test corpus that has version sections the entries and auxiliaries are
    recorded in yield order, together with the raw bytes of the section and of its linked tables;
    spec/trace/VersionsTrace.tla runs the chain machine of Versions.tla on the raw bytes and checks
@@ -206,30 +211,75 @@ def _check_chain(run, sec, kind, view, queries, bad):
     # index resolution: the entry carrying the index, None when no entry carries it
     for q in queries:
         if kind == 'def':
-            idx, k = q
-            want = None if k == 0 else expc[k - 1]
-
-            def look():
-                r = sec.get_version(idx)
-                if r is None:
-                    return None
-                v, it = r
-                e = _ent_fields(expc, max(k - 1, 0))
-                return _obs_entry(v, e, kind) + [[_obs_aux(a, _aux_fields(expc, max(k - 1, 0), j)) for j, a in enumerate(_take(it))]]
+            (idx, k), j = q, 0
         else:
             idx, k, j = q
-            want = None if k == 0 else [expc[k - 1][0], expc[k - 1][1], expc[k - 1][2][j - 1]]
-
-            def look():
-                r = sec.get_version(idx)
-                if r is None:
-                    return None
-                v, a = r
-                return _obs_entry(v, _ent_fields(expc, max(k - 1, 0)), kind) + [_obs_aux(a, _aux_fields(expc, max(k - 1, 0), max(j - 1, 0)))]
-        got = _safe(look)
+        want = _want_lookup(kind, expc, k, j)
+        got = _safe(_lookup, sec, kind, expc, idx, k, j)
         if got != want:
             bad(kind + ('.get_version.present' if want is not None else '.get_version.absent'), {'index': idx, 'result': want}, {'index': idx, 'result': got})
     return full
+
+
+def _lookup(sec, kind, expc, idx, k, j):
+    """get_version(idx) in the shape of the expectation: None, or [entry fields, name, auxiliaries / the auxiliary]."""
+    r = sec.get_version(idx)
+    if r is None:
+        return None
+    if kind == 'def':
+        v, it = r
+        return _obs_entry(v, _ent_fields(expc, max(k - 1, 0)), kind) + \
+            [[_obs_aux(a, _aux_fields(expc, max(k - 1, 0), n)) for n, a in enumerate(_take(it))]]
+    v, a = r
+    return _obs_entry(v, _ent_fields(expc, max(k - 1, 0)), kind) + [_obs_aux(a, _aux_fields(expc, max(k - 1, 0), max(j - 1, 0)))]
+
+
+def _want_lookup(kind, expc, k, j):
+    if k == 0:
+        return None
+    if kind == 'def':
+        return expc[k - 1]
+    return [expc[k - 1][0], expc[k - 1][1], expc[k - 1][2][j - 1]]
+
+
+def _run_session(ef_open, exp, session, bad):
+    """One session of the specification on one fresh section object: each call's answer against the logged one."""
+    kind = session['kind']
+    expc = _exp_chain(exp[kind], kind)
+    try:
+        sec = ef_open().get_section(exp['idx']['verdef' if kind == 'def' else 'verneed'])
+    except Exception as ex:   # noqa
+        bad('open', 'ELFFile + version section', 'exc:%s:%s' % (type(ex).__name__, ex))
+        return
+    it = None
+    for n, (op, q, k, j) in enumerate(session['log']):
+        if op == 'get':
+            want, got = _want_lookup(kind, expc, k, j), _safe(_lookup, sec, kind, expc, q, k, j)
+        elif op == 'has':
+            want, got = bool(k), _safe(sec.has_indexes)
+        elif op == 'num':
+            want, got = k, _safe(sec.num_versions)
+        elif op == 'all':
+            want, got = expc, _safe(_nested, sec, expc, kind)
+        elif op == 'open':
+            it = sec.iter_versions()
+            continue
+        else:                       # step: the next entry with its whole auxiliary chain; peek: with its first auxiliary only
+            want = None if k == 0 else [expc[k - 1][0], expc[k - 1][1], expc[k - 1][2][:j]]
+
+            def advance():
+                p = next(it, None)
+                if p is None:
+                    return None
+                v, auxit = p
+                pos = max(k - 1, 0)
+                auxes = _take(auxit) if op == 'step' else ([] if (first := next(auxit, None)) is None else [first])
+                return _obs_entry(v, _ent_fields(expc, pos), kind) + [[_obs_aux(a, _aux_fields(expc, pos, m)) for m, a in enumerate(auxes)]]
+            got = _safe(advance)
+        if got != want:
+            bad('%s.session.%s' % (kind, op), {'call': n, 'op': op, 'index': q, 'answer': want, 'after': session['log'][:n]},
+                {'call': n, 'answer': got})
+            return                  # the first wrong answer of a session is the finding; later ones are consequences
 
 
 def _check_versym(run, sec, view, voc, bad):
@@ -307,6 +357,15 @@ def _replay_case(run, case, ELFFile, voc, classes):
         s = ef.get_section_by_name(nm)
         if s is None or dict(s.header) != dict(secs[k].header):
             bad('by_name', nm, None if s is None else dict(s.header))
+    # client sessions: each on a section object of its own (of a file object of its own)
+    for session in case.get('sessions', ()):
+        def sbad(clause, e, o, session=session):
+            run.mismatch(clause, 'session/%s/%s' % (session['disc'], tag.split('/')[2]), dict(brief, session=session), e, o)
+        with core.guard(20):
+            try:
+                _run_session(lambda: ELFFile(io.BytesIO(data)), exp, session, sbad)
+            except core.CallTimeout:
+                sbad('session.timeout', 'an answer', 'no answer within 20 s')
 
 
 # ------------------------------------------------------------------ T
@@ -407,14 +466,27 @@ def _validate_corpus(run, ELFFile):
 
 
 def _assemble(run, path):
-    """Cases are emitted as several lines (see Emit in Versions.tla); put them together again."""
-    pending = {}
+    """Cases are emitted as several lines (see Emit in Versions.tla); put them together again.  The finished
+    client sessions of an object are lines of their own (t = "sess"), written after the object's case: they are
+    collected in a first pass (they are small), so that the cases can be streamed in the second."""
+    import json
+    sessions = {}
+    with open(path) as f:
+        for line in f:
+            if '\\"t\\":\\"sess\\"' not in line:
+                continue
+            part = json.loads(json.loads(line))
+            sessions.setdefault(part['k'], []).append(part['v'])
+    pending, done = {}, set()
     for part in run.cases(path):
+        if part['t'] == 'sess':
+            continue
         slot = pending.setdefault(part['k'], {})
         slot[part['i']] = part
         if len(slot) < part['n']:
             continue
         del pending[part['k']]
+        done.add(part['k'])
         parts = [slot[i] for i in sorted(slot)]
         head = parts[0]['v']
         exp = {'idx': head['idx'], 'defq': head['defq'], 'needq': head['needq'], 'has_indexes': head['has_indexes'],
@@ -427,9 +499,12 @@ def _assemble(run, path):
                 exp['versym'] += p['v']
             else:
                 exp[p['t']] = p['v']
-        yield {'tag': head['tag'], 'cls': head['cls'], 'le': head['le'], 'shape': head['shape'], 'chunks': chunks, 'expect': exp}
+        yield {'tag': head['tag'], 'cls': head['cls'], 'le': head['le'], 'shape': head['shape'], 'chunks': chunks, 'expect': exp,
+               'sessions': sorted(sessions.get(part['k'], ()), key=lambda v: (v['kind'], v['disc'], v['log']))}
     if pending:
         raise core.MachineryError('%d cases were emitted incompletely' % len(pending))
+    if set(sessions) - done:
+        raise core.MachineryError('%d sessions belong to no emitted case' % len(set(sessions) - done))
 
 
 # ------------------------------------------------------------------ replay of a recorded mismatch
@@ -446,7 +521,7 @@ def replay(run, path):
             corpus = True
             continue
         case = {'tag': c['tag'], 'cls': c['cls'], 'le': c['le'], 'shape': c['shape'], 'expect': c['expect'],
-                'chunks': [[0, list(base64.b64decode(c['bytes_b64'])), 1]]}
+                'chunks': [[0, list(base64.b64decode(c['bytes_b64'])), 1]], 'sessions': [c['session']] if 'session' in c else []}
         run.count(core.digest(c['bytes_b64']))
         _replay_case(run, case, ELFFile, voc, CLASSES)
     if corpus:
@@ -463,7 +538,8 @@ def check(run):
                 'auxiliary arrays, striped chains} x index assignments {sequential, gaps, hidden bit, none, last only} x class/byte '
                 'order x container arrangement; versym tables of several lengths); non-trivial = at least one definition or '
                 'requirement entry, or a versym table longer than the null symbol; distinct by emitted bytes.  T cases = one '
-                'trace per version section of the corpus ELFs; non-trivial = the section yields at least one record')
+                'trace per version section of the corpus ELFs; non-trivial = the section yields at least one record.  '
+                'Client sessions (call sequences on one section object) are part of their object\'s case; their number is in extra')
     run.assumptions += ['well-formed version sections only: counts agree with the chains, the last next displacement is 0, '
                         'displacements are forward (the fields are unsigned), no two entries carry the same index',
                         'hash fields carry arbitrary words, not the ELF hash of the name',
@@ -472,6 +548,7 @@ def check(run):
                         'names of reserved versym values the vendored registry does not define are not asserted']
     cfgs = ['Versions_quick'] if run.tier == 'quick' else ['Versions_thorough', 'Versions_free']
     seen = set()
+    nsess, ncalls = {}, [0]
     for case in (c for cfg in cfgs for c in _assemble(run, run.tlc('Versions', cfg).out)):
         key = core.digest([case['tag'], case['chunks']])
         if key in seen:
@@ -485,6 +562,9 @@ def check(run):
                       'def': case['expect']['def'][:1], 'defq': case['expect']['defq'][:4], 'versym': [v['ndx'] for v in case['expect']['versym']][:12]}
         run.count(key, nontrivial=nontriv, sample=sample)
         _replay_case(run, case, ELFFile, voc, classes)
+        for ses in case['sessions']:
+            nsess[ses['disc']] = nsess.get(ses['disc'], 0) + 1
+            ncalls[0] += len(ses['log'])
     run.validated = run.evaluations
     if run.evaluations == 0:
         raise core.MachineryError('Versions emitted no case')
@@ -492,3 +572,6 @@ def check(run):
     if len(run.samples) < 4 and traces:
         run.samples.append({'trace': traces[0]})
     run.extra['exhaustive'] = True
+    run.extra['client_sessions'] = {'by_discipline': nsess, 'calls': ncalls[0]}
+    if not nsess:
+        raise core.MachineryError('Versions emitted no client session')
